@@ -6,11 +6,12 @@ set -u
 name="$1"; dir="/verif/seeded/$name"
 prop="${2:-$(python3 -c "import json;print(json.load(open('$dir/meta.json'))['property'])")}"
 tier="${3:-quick}"
-[ -z "$(git -C /repo status --porcelain)" ] || { echo "/repo not clean"; exit 2; }
+R="${VERIF_REPO:-/repo}"   # VERIF_REPO=<clone of /repo> runs the seed against a scratch clone instead
+[ -z "$(git -C "$R" status --porcelain)" ] || { echo "$R not clean"; exit 2; }
 out=$(mktemp -d /var/tmp/verif-seedrun-XXXXXX)
 cp /verif/known_findings.json "$out/"
-trap 'git -C /repo apply -R "$dir/patch.diff" 2>/dev/null; git -C /repo checkout -- . ; rm -rf "$out"' EXIT
-git -C /repo apply "$dir/patch.diff" || { echo "PATCH-DOES-NOT-APPLY $name"; exit 2; }
+trap 'git -C "$R" apply -R "$dir/patch.diff" 2>/dev/null; git -C "$R" checkout -- . ; rm -rf "$out"' EXIT
+git -C "$R" apply "$dir/patch.diff" || { echo "PATCH-DOES-NOT-APPLY $name"; exit 2; }
 VERIF_DIR="$out" /verif/run "$prop" "$tier" > "$out/log" 2>&1
 rc=$?
 if grep -q "^VIOLATION property=$prop" "$out/log" && [ $rc -eq 1 ]; then
